@@ -257,6 +257,14 @@ def run(res, replay=None):
         res.distribution = {"histories": len(lines), "calls": nops}
     res.samples = [lines[-1][:400]] if lines else []
     if not replay:
+        # page-id allocation and reuse across restarts: extracted model (Model/PageAlloc.v, theorems of Props/C13Alloc.v) against a real
+        # engine instance (lib/alloccorr.py, verifharness pagealloc) with an owner-tracking oracle; probes of the repaired
+        # F-ALLOC-BEYOND-FILE (regression) and of the listed finding F-ALLOC-LOG-RACE
+        import alloccorr
+        alloccorr.run_corr(res, random.Random(res.seed * 7919 + 131), 60 if res.tier == "quick" else 800)
+        alloccorr.run_db_probe(res)
+        alloccorr.run_race_probe(res)
+        alloccorr.run_thread_probe(res)
         # several users on one small pool over a disk whose reads take time (harness/c13c.go): every fetch must return the bytes of the
         # last completed write of that page (per-page counters against a shadow array updated under the page latch)
         import subprocess
